@@ -152,5 +152,829 @@ func TestVerifC37Dump(t *testing.T) {
 	}
 }
 
+type expandRow struct {
+	ID int     `json:"id"`
+	N  int     `json:"n"`
+	OK bool    `json:"ok"`
+	Ex [][]int `json:"ex"`
+}
+
+type expandTable struct {
+	Rows []expandRow `json:"rows"`
+}
+
+type globDomain struct {
+	Paths   [][]int `json:"paths"`
+	Strings [][]int `json:"strings"`
+}
+
+type globTable struct {
+	NPaths int     `json:"npaths"`
+	Rows   [][]int `json:"rows"`
+}
+
+func bitsOf(idx []int, n int) []bool {
+	out := make([]bool, n)
+	for _, j := range idx {
+		out[j-1] = true
+	}
+	return out
+}
+
+// realRow evaluates PathPatternMatches(pattern, path) for every path; errs counts match errors.
+func realRow(pattern string, paths []string, errs *int) []bool {
+	out := make([]bool, len(paths))
+	for j, p := range paths {
+		switch match(pattern, p) {
+		case 1:
+			out[j] = true
+		case 2:
+			*errs++
+		}
+	}
+	return out
+}
+
+func rowKey(b []bool) string {
+	bs := make([]byte, len(b))
+	any := false
+	for i, x := range b {
+		if x {
+			bs[i] = '1'
+			any = true
+		} else {
+			bs[i] = '0'
+		}
+	}
+	if !any {
+		return ""
+	}
+	return string(bs)
+}
+
+// TestVerifC37Table: T->I. The reference comes from TLC in factored form (PathPatternTable.tla):
+//   VERIF_DOMAINS/VERIF_EXPAND  per pattern (AST): NumVariants, accepted, Expand(p)
+//   VERIF_GLOBDOM/VERIF_GLOB    per distinct expansion v: the paths with PPM(v, path)
+// so RefMatch(p, path) = exists v in Expand(p): PPM(v, path). The driver evaluates the real
+// ParsePathPattern / NumVariants / RenderAllVariants / PathPatternMatches on the same domain:
+//   glob       real PathPatternMatches(v, path) != reference PPM(v, path), v brace-less
+//   accept     ParsePathPattern accepts/rejects differently from the reference
+//   count      NumVariants != number of callbacks, != reference, or > limit
+//   match      real PathPatternMatches(p, path) != OR over the reference expansions v of the real
+//              PathPatternMatches(v, path)             (pattern vs its expansions)
+//   normalise  OR over the reference expansions != OR over the variants handed to the callback
+//              (v.String()), i.e. the enumerated expansion does not match what the expansion matches
+//   variants   real PathPatternMatches(p, path) != OR over the real variants although match and
+//              normalise agree (cannot happen; kept as a consistency check)
+func TestVerifC37Table(t *testing.T) {
+	em := newEmitter(t, "VERIF_OUT")
+	defer em.close()
+	maxPer := envInt("VERIF_MAX_MISMATCH", 2000)
+	emitted := map[string]int{}
+	total := map[string]int{}
+	report := func(kind string, rec map[string]interface{}) {
+		total[kind]++
+		if emitted[kind] < maxPer {
+			emitted[kind]++
+			rec["kind"] = kind
+			em.emit(rec)
+		}
+	}
+
+	var paths []string
+	globRef := map[string][]bool{}
+	globReal := map[string][]bool{}
+	var evals, matchErrs, globStrings int
+	gd := envFiles("VERIF_GLOBDOM")
+	gt := envFiles("VERIF_GLOB")
+	if len(gd) != len(gt) || len(gd) == 0 {
+		t.Fatalf("VERIF_GLOBDOM/VERIF_GLOB: %d/%d files", len(gd), len(gt))
+	}
+	for k := range gd {
+		var d globDomain
+		var tb globTable
+		readJSON(t, gd[k], &d)
+		readJSON(t, gt[k], &tb)
+		ps := pathStrings(d.Paths)
+		if paths == nil {
+			paths = ps
+		} else if strings.Join(paths, " ") != strings.Join(ps, " ") {
+			t.Fatalf("%s: path domain differs between files", gd[k])
+		}
+		if tb.NPaths != len(paths) || len(tb.Rows) != len(d.Strings) {
+			t.Fatalf("%s: glob table shape mismatch (%d paths/%d, %d rows/%d)", gt[k], tb.NPaths, len(paths), len(tb.Rows), len(d.Strings))
+		}
+		for i, sc := range d.Strings {
+			v := fromCodes(sc)
+			ref := bitsOf(tb.Rows[i], len(paths))
+			real := realRow(v, paths, &matchErrs)
+			evals += len(paths)
+			globStrings++
+			globRef[v] = ref
+			globReal[v] = real
+			for j := range paths {
+				if ref[j] != real[j] {
+					report("glob", map[string]interface{}{"v": v, "path": paths[j], "exp": ref[j], "got": real[j]})
+					break
+				}
+			}
+		}
+	}
+
+	doms := envFiles("VERIF_DOMAINS")
+	exps := envFiles("VERIF_EXPAND")
+	if len(doms) != len(exps) || len(doms) == 0 {
+		t.Fatalf("VERIF_DOMAINS/VERIF_EXPAND: %d/%d files", len(doms), len(exps))
+	}
+	var npat, nacc, nrej, nbig, nvariants, orderExact, refMatchDiff, bDiff int
+	distinct := map[string]bool{}
+	normSeen := map[string]bool{}
+	hist := map[string]int{}
+	for k := range doms {
+		var d domainFile
+		var tb expandTable
+		readJSON(t, doms[k], &d)
+		readJSON(t, exps[k], &tb)
+		if strings.Join(pathStrings(d.Paths), " ") != strings.Join(paths, " ") {
+			t.Fatalf("%s: path domain differs from the glob domain", doms[k])
+		}
+		if len(tb.Rows) != len(d.Patterns) {
+			t.Fatalf("%s: %d rows for %d patterns", exps[k], len(tb.Rows), len(d.Patterns))
+		}
+		for i, pr := range d.Patterns {
+			row := tb.Rows[i]
+			if row.ID != pr.ID {
+				t.Fatalf("%s: row %d has id %d, pattern id %d", exps[k], i, row.ID, pr.ID)
+			}
+			s := render(pr.Ast)
+			r := evalPattern(s)
+			npat++
+			evals++
+			if r.ok != row.OK {
+				report("accept", map[string]interface{}{"p": s, "exp_ok": row.OK, "got_ok": r.ok, "err": r.err, "ref_n": row.N})
+				continue
+			}
+			if !r.ok {
+				nrej++
+				continue
+			}
+			nacc++
+			nvariants += r.calls
+			if r.n != r.calls || r.n != row.N || r.calls > 1000 || !r.idxOK {
+				report("count", map[string]interface{}{"p": s, "ref_n": row.N, "n": r.n, "calls": r.calls, "idx_ok": r.idxOK})
+			}
+			if pr.Big {
+				// count only on the reference side; the statement's law is still checked on real outputs
+				nbig++
+				real := realRow(s, paths, &matchErrs)
+				or := make([]bool, len(paths))
+				for _, v := range r.variants {
+					vr := realRow(v.String(), paths, &matchErrs)
+					for j := range or {
+						or[j] = or[j] || vr[j]
+					}
+				}
+				evals += len(paths) * (1 + len(r.variants))
+				for j := range paths {
+					if real[j] != or[j] {
+						bDiff++
+						report("variants", map[string]interface{}{"p": s, "path": paths[j], "pattern": real[j], "variants": or[j]})
+						break
+					}
+				}
+				continue
+			}
+			if len(row.Ex) != row.N {
+				t.Fatalf("%s: pattern %q: reference has %d expansions but count %d", exps[k], s, len(row.Ex), row.N)
+			}
+			real := realRow(s, paths, &matchErrs)
+			evals += len(paths)
+			if rk := rowKey(real); rk != "" {
+				distinct[rk] = true
+			}
+			// reference expansions: reference rows and real rows
+			exs := make([]string, len(row.Ex))
+			refOr := make([]bool, len(paths))
+			exOr := make([]bool, len(paths))
+			for e, ec := range row.Ex {
+				v := fromCodes(ec)
+				exs[e] = v
+				rr, ok := globRef[v]
+				if !ok {
+					t.Fatalf("expansion %q of %q is missing from the glob tables", v, s)
+				}
+				lr := globReal[v]
+				for j := range paths {
+					refOr[j] = refOr[j] || rr[j]
+					exOr[j] = exOr[j] || lr[j]
+				}
+			}
+			// the variants handed to the callback
+			varOr := make([]bool, len(paths))
+			varRows := make([][]bool, len(r.variants))
+			exact := len(r.variants) == len(exs)
+			for vi, v := range r.variants {
+				vs := v.String()
+				lr, ok := globReal[vs]
+				if !ok {
+					lr = realRow(vs, paths, &matchErrs)
+					evals += len(paths)
+					globReal[vs] = lr
+				}
+				varRows[vi] = lr
+				for j := range paths {
+					varOr[j] = varOr[j] || lr[j]
+				}
+				if exact && vs != exs[vi] {
+					exact = false
+				}
+			}
+			if exact {
+				orderExact++
+			}
+			nm, nn := 0, 0
+			for j := range paths {
+				if real[j] {
+					hist["match"]++
+				} else {
+					hist["nomatch"]++
+				}
+				if real[j] != refOr[j] {
+					refMatchDiff++
+				}
+				if real[j] != exOr[j] {
+					nm++
+				}
+				if exOr[j] != varOr[j] {
+					nn++
+				}
+				if real[j] != varOr[j] {
+					bDiff++
+				}
+			}
+			if nm > 0 {
+				for j := range paths {
+					if real[j] != exOr[j] {
+						dir := "expansions-only"
+						if real[j] {
+							dir = "pattern-only"
+						}
+						report("match", map[string]interface{}{"p": s, "path": paths[j], "npaths": nm, "dir": dir, "ex": exs})
+						break
+					}
+				}
+			}
+			if nn > 0 && len(r.variants) == len(exs) {
+				// name the expansions whose enumerated variant matches differently
+				for e := range exs {
+					if normSeen[exs[e]] {
+						continue
+					}
+					er := globReal[exs[e]]
+					for j := range paths {
+						if er[j] != varRows[e][j] {
+							normSeen[exs[e]] = true
+							dir := "variant-only"
+							if er[j] {
+								dir = "expansion-only"
+							}
+							report("normalise", map[string]interface{}{"ex": exs[e], "var": r.variants[e].String(), "path": paths[j], "dir": dir, "p": s})
+							break
+						}
+					}
+				}
+			} else if nn > 0 {
+				report("normalise", map[string]interface{}{"ex": "", "var": "", "path": "", "dir": "count", "p": s})
+			}
+			if nm == 0 && nn == 0 {
+				for j := range paths {
+					if real[j] != varOr[j] {
+						report("variants", map[string]interface{}{"p": s, "path": paths[j], "pattern": real[j], "variants": varOr[j]})
+						break
+					}
+				}
+			}
+			// PathPattern.Match is PathPatternMatches on the original string
+			if pp, err := patterns.ParsePathPattern(s); err == nil {
+				j := (pr.ID * 7) % len(paths)
+				m, err := pp.Match(paths[j])
+				evals++
+				if err != nil || m != real[j] {
+					report("variants", map[string]interface{}{"p": s, "path": paths[j], "pattern": real[j], "variants": m, "method": "Match"})
+				}
+			}
+		}
+	}
+	if matchErrs > 0 {
+		report("match-error", map[string]interface{}{"n": matchErrs})
+	}
+	em.emit(map[string]interface{}{"kind": "stats", "evaluations": evals, "patterns": npat, "accepted": nacc, "rejected": nrej,
+		"count_only": nbig, "variants": nvariants, "glob_strings": globStrings, "paths": len(paths),
+		"distinct_match_sets": len(distinct), "order_exact": orderExact, "refmatch_diff_pairs": refMatchDiff,
+		"pattern_vs_variants_diff_pairs": bDiff, "hist": hist, "total": total, "match_errors": matchErrs})
+}
+
+// ---- strings domain: which pattern strings are accepted ----
+
+type stringsDomain struct {
+	Strings [][]int `json:"strings"`
+}
+
+type validTable struct {
+	Valid []bool `json:"valid"`
+}
+
+// TestVerifC37Valid: T->I for PathPattern!Valid over pattern strings (VERIF_DOMAINS / VERIF_TABLES):
+// ParsePathPattern must accept exactly the strings the reference calls valid (none of the strings
+// of this domain can exceed the limit on expansions).
+func TestVerifC37Valid(t *testing.T) {
+	em := newEmitter(t, "VERIF_OUT")
+	defer em.close()
+	doms := envFiles("VERIF_DOMAINS")
+	tabs := envFiles("VERIF_TABLES")
+	if len(doms) != len(tabs) || len(doms) == 0 {
+		t.Fatalf("VERIF_DOMAINS/VERIF_TABLES: %d/%d files", len(doms), len(tabs))
+	}
+	maxPer := envInt("VERIF_MAX_MISMATCH", 2000)
+	var evals, acc, rej, bad int
+	reasons := map[string]int{}
+	for k := range doms {
+		var d stringsDomain
+		var tb validTable
+		readJSON(t, doms[k], &d)
+		readJSON(t, tabs[k], &tb)
+		if len(d.Strings) != len(tb.Valid) {
+			t.Fatalf("%s: %d strings, %d verdicts", tabs[k], len(d.Strings), len(tb.Valid))
+		}
+		for i, sc := range d.Strings {
+			s := fromCodes(sc)
+			p, err := patterns.ParsePathPattern(s)
+			evals++
+			ok := err == nil
+			if ok {
+				acc++
+				// an accepted pattern can be enumerated: count law on the real outputs
+				calls := 0
+				p.RenderAllVariants(func(int, patterns.PatternVariant) { calls++ })
+				if calls != p.NumVariants() || calls > 1000 {
+					bad++
+					em.emit(map[string]interface{}{"kind": "count", "p": s, "n": p.NumVariants(), "calls": calls, "ref_n": -1, "idx_ok": true})
+				}
+			} else {
+				rej++
+				msg := err.Error()
+				if i := strings.LastIndex(msg, ": "); i >= 0 {
+					msg = msg[i+2:]
+				}
+				reasons[msg]++
+			}
+			if ok != tb.Valid[i] {
+				bad++
+				if bad <= maxPer {
+					e := ""
+					if err != nil {
+						e = err.Error()
+					}
+					em.emit(map[string]interface{}{"kind": "accept", "p": s, "exp_ok": tb.Valid[i], "got_ok": ok, "err": e, "ref_n": -1})
+				}
+			}
+		}
+	}
+	em.emit(map[string]interface{}{"kind": "stats", "evaluations": evals, "accepted": acc, "rejected": rej, "bad": bad, "reasons": reasons})
+}
+
+// ---- seeded random patterns beyond the bound (I->T) ----
+
+func chItem(c byte) item { return item{C: int(c), Alts: [][]item{}} }
+
+func textItems(s string) []item {
+	out := make([]item, 0, len(s))
+	for i := 0; i < len(s); i++ {
+		out = append(out, chItem(s[i]))
+	}
+	return out
+}
+
+type rnd interface{ Intn(int) int }
+
+const c37Letters = "abcxyz.-_0"
+
+func randWord(r rnd, max int) string {
+	n := 1 + r.Intn(max)
+	b := make([]byte, n)
+	for i := range b {
+		b[i] = c37Letters[r.Intn(len(c37Letters))]
+	}
+	return string(b)
+}
+
+// randSegment: the text of one path segment of a pattern (may contain wildcards and escapes)
+func randSegment(r rnd, wild int) string {
+	switch x := r.Intn(100); {
+	case x < wild/3:
+		return "**"
+	case x < wild/2:
+		return "*"
+	case x < wild:
+		w := randWord(r, 3)
+		switch r.Intn(5) {
+		case 0:
+			return w + "*"
+		case 1:
+			return "*" + w
+		case 2:
+			return w + "?"
+		case 3:
+			return "*" + w + "*"
+		default:
+			return w + "*" + randWord(r, 2)
+		}
+	case x < wild+6:
+		return randWord(r, 2) + "\\" + string("*?{},ab"[r.Intn(7)]) + randWord(r, 2)
+	}
+	return randWord(r, 4)
+}
+
+// randItems: a run of pattern text with groups; depth = remaining nesting allowed
+func randItems(r rnd, depth int, wild int, top bool) []item {
+	var out []item
+	nseg := 1 + r.Intn(3)
+	for i := 0; i < nseg; i++ {
+		if top || i > 0 || r.Intn(3) == 0 {
+			out = append(out, chItem('/'))
+		}
+		if depth > 0 && r.Intn(100) < 45 {
+			if r.Intn(2) == 0 {
+				out = append(out, textItems(randWord(r, 2))...)
+			}
+			nalt := 2 + r.Intn(3)
+			g := item{C: 0}
+			for a := 0; a < nalt; a++ {
+				switch x := r.Intn(10); {
+				case x == 0:
+					g.Alts = append(g.Alts, []item{})
+				case x == 1 && a > 0:
+					g.Alts = append(g.Alts, g.Alts[r.Intn(a)]) // a node-equal duplicate
+				case x < 5:
+					g.Alts = append(g.Alts, textItems(randWord(r, 3)))
+				case x < 7:
+					g.Alts = append(g.Alts, textItems(randSegment(r, wild)))
+				default:
+					g.Alts = append(g.Alts, randItems(r, depth-1, wild, false))
+				}
+			}
+			out = append(out, g)
+			if r.Intn(3) == 0 {
+				out = append(out, textItems(randWord(r, 2))...)
+			}
+		} else {
+			out = append(out, textItems(randSegment(r, wild))...)
+		}
+	}
+	if r.Intn(6) == 0 {
+		out = append(out, chItem('/'))
+	}
+	return out
+}
+
+// instantiate turns a brace-less variant into a path it is likely to match
+func instantiate(r rnd, v string) string {
+	var b strings.Builder
+	for i := 0; i < len(v); i++ {
+		switch c := v[i]; c {
+		case '\\':
+			if i+1 < len(v) {
+				i++
+				b.WriteByte(v[i])
+			}
+		case '?':
+			b.WriteByte(c37Letters[r.Intn(len(c37Letters))])
+		case '*':
+			if i+1 < len(v) && v[i+1] == '*' {
+				i++
+				for k := r.Intn(3); k > 0; k-- {
+					b.WriteString(randWord(r, 2))
+					if k > 1 {
+						b.WriteByte('/')
+					}
+				}
+			} else if r.Intn(3) > 0 {
+				b.WriteString(randWord(r, 2))
+			}
+		default:
+			b.WriteByte(c)
+		}
+	}
+	return b.String()
+}
+
+func mutatePath(r rnd, p string) string {
+	b := []byte(p)
+	switch r.Intn(6) {
+	case 0:
+		if len(b) > 1 && b[len(b)-1] == '/' {
+			b = b[:len(b)-1]
+		} else {
+			b = append(b, '/')
+		}
+	case 1:
+		if len(b) > 1 {
+			i := 1 + r.Intn(len(b)-1)
+			b = append(b[:i], b[i+1:]...)
+		}
+	case 2:
+		i := 1 + r.Intn(len(b))
+		b = append(b[:i], append([]byte{c37Letters[r.Intn(len(c37Letters))]}, b[i:]...)...)
+	case 3:
+		b = append(b, []byte("/"+randWord(r, 2))...)
+	case 4:
+		if i := strings.LastIndex(string(b[:len(b)-1]), "/"); i > 0 {
+			b = b[:i]
+		}
+	}
+	if len(b) == 0 || b[0] != '/' {
+		b = append([]byte{'/'}, b...)
+	}
+	return strings.ReplaceAll(string(b), "//", "/")
+}
+
+// TestVerifC37Random: I->T. Seeded random patterns (nesting <= 3, longer literals, wider alphabet,
+// escapes, node-equal alternatives) with paths derived from their real variants; the real results
+// are recorded for validation against PathPattern!Accepted/NumVariants/RefMatch by TracePathPattern.
+func TestVerifC37Random(t *testing.T) {
+	em := newEmitter(t, "VERIF_OUT")
+	defer em.close()
+	r := seededRand()
+	n := envInt("VERIF_N", 500)
+	npaths := envInt("VERIF_NPATHS", 8)
+	for i := 1; i <= n; i++ {
+		wild := []int{10, 30, 60}[r.Intn(3)]
+		ast := randItems(r, 1+r.Intn(3), wild, true)
+		s := render(ast)
+		rp := evalPattern(s)
+		paths := []string{}
+		if rp.ok {
+			for k := 0; k < npaths; k++ {
+				v := rp.variants[r.Intn(len(rp.variants))].String()
+				p := instantiate(r, v)
+				if k%2 == 1 {
+					p = mutatePath(r, p)
+				}
+				paths = append(paths, p)
+			}
+		}
+		pc := make([][]int, len(paths))
+		m := make([]int, len(paths))
+		or := make([]int, len(paths))
+		for j, p := range paths {
+			pc[j] = codes(p)
+			m[j] = match(s, p)
+			for _, v := range rp.variants {
+				if match(v.String(), p) == 1 {
+					or[j] = 1
+					break
+				}
+			}
+		}
+		em.emit(map[string]interface{}{"case": i, "s": s, "ast": ast, "paths": pc, "spaths": paths, "ok": rp.ok, "err": rp.err,
+			"n": rp.n, "calls": rp.calls, "m": m, "or_variants": or})
+	}
+}
+
+// ---- precedence ----
+
+func permutations(k int) [][]int {
+	var out [][]int
+	var rec func(cur []int, used []bool)
+	rec = func(cur []int, used []bool) {
+		if len(cur) == k {
+			out = append(out, append([]int(nil), cur...))
+			return
+		}
+		for i := 0; i < k; i++ {
+			if !used[i] {
+				used[i] = true
+				rec(append(cur, i), used)
+				used[i] = false
+			}
+		}
+	}
+	rec(nil, make([]bool, k))
+	return out
+}
+
+func cmpVariants(a, b patterns.PatternVariant, path string) int {
+	c, err := a.Compare(b, path)
+	if err != nil {
+		return 2
+	}
+	return c
+}
+
+// TestVerifC37Precedence: the variant pool is every distinct variant (v.String()) enumerated by the
+// real code for the patterns of VERIF_DOMAINS. For every path of the domain, M = the variants that
+// match it (real PathPatternMatches). Directly on the real outputs: Compare restricted to M is a
+// strict weak order whose ties are identical variants (all pairs; all triples when |M| <= VERIF_TRIPLE_MAX,
+// else seeded triples), and HighestPrecedencePattern returns the same variant for M given forwards,
+// backwards and in seeded shuffles. For TLC (I->T): seeded subsets of 2..4 variants of M with the
+// full Compare matrix and the winner for EVERY permutation.
+func TestVerifC37Precedence(t *testing.T) {
+	em := newEmitter(t, "VERIF_OUT")
+	defer em.close()
+	r := seededRand()
+	nsets := envInt("VERIF_NSETS", 40) // recorded subsets per path
+	tripleMax := envInt("VERIF_TRIPLE_MAX", 150)
+	poolMax := envInt("VERIF_POOL_MAX", 4000)
+	var paths []string
+	pool := map[string]patterns.PatternVariant{}
+	var names []string
+	for _, f := range envFiles("VERIF_DOMAINS") {
+		var d domainFile
+		readJSON(t, f, &d)
+		if paths == nil {
+			paths = pathStrings(d.Paths)
+		}
+		for _, pr := range d.Patterns {
+			if pr.Big {
+				continue
+			}
+			rp := evalPattern(render(pr.Ast))
+			for _, v := range rp.variants {
+				if _, ok := pool[v.String()]; !ok {
+					pool[v.String()] = v
+					names = append(names, v.String())
+				}
+			}
+		}
+	}
+	sort.Strings(names)
+	if len(names) > poolMax {
+		r.Shuffle(len(names), func(i, j int) { names[i], names[j] = names[j], names[i] })
+		names = names[:poolMax]
+		sort.Strings(names)
+	}
+	bad := 0
+	report := func(law, path string, vs ...string) {
+		bad++
+		if bad <= 500 {
+			em.emit(map[string]interface{}{"kind": "law", "law": law, "path": path, "variants": vs})
+		}
+	}
+	var ncmp, ntriples, nsetsTotal, nperm, nhighest, caseNo int
+	maxM := 0
+	winners := map[string]bool{}
+	for _, path := range paths {
+		var M []patterns.PatternVariant
+		for _, nm := range names {
+			if match(nm, path) == 1 {
+				M = append(M, pool[nm])
+			}
+		}
+		n := len(M)
+		if n > maxM {
+			maxM = n
+		}
+		if n == 0 {
+			continue
+		}
+		C := make([][]int8, n)
+		for i := range C {
+			C[i] = make([]int8, n)
+			for j := range C[i] {
+				C[i][j] = int8(cmpVariants(M[i], M[j], path))
+				ncmp++
+			}
+		}
+		for i := 0; i < n; i++ {
+			for j := 0; j < n; j++ {
+				c := C[i][j]
+				switch {
+				case c == 2:
+					if i <= j {
+						report("compare-error", path, M[i].String(), M[j].String())
+					}
+				case i == j && c != 0:
+					report("irreflexive", path, M[i].String())
+				case i < j && C[j][i] != 2 && c != -C[j][i]:
+					report("asymmetric", path, M[i].String(), M[j].String())
+				case i < j && c == 0:
+					report("tie", path, M[i].String(), M[j].String())
+				}
+			}
+		}
+		triple := func(i, j, k int) {
+			ntriples++
+			if C[i][j] == 1 && C[j][k] == 1 && C[i][k] != 1 {
+				report("transitive", path, M[i].String(), M[j].String(), M[k].String())
+			}
+		}
+		if n <= tripleMax {
+			for i := 0; i < n; i++ {
+				for j := 0; j < n; j++ {
+					if C[i][j] != 1 {
+						continue
+					}
+					for k := 0; k < n; k++ {
+						triple(i, j, k)
+					}
+				}
+			}
+		} else {
+			for q := 0; q < tripleMax*tripleMax*tripleMax/4; q++ {
+				triple(r.Intn(n), r.Intn(n), r.Intn(n))
+			}
+		}
+		// the whole set in several orders
+		orders := [][]int{make([]int, n), make([]int, n)}
+		for i := 0; i < n; i++ {
+			orders[0][i] = i
+			orders[1][i] = n - 1 - i
+		}
+		for q := 0; q < 6; q++ {
+			orders = append(orders, r.Perm(n))
+		}
+		first := ""
+		for q, ord := range orders {
+			vs := make([]patterns.PatternVariant, n)
+			for i, x := range ord {
+				vs[i] = M[x]
+			}
+			w, err := patterns.HighestPrecedencePattern(vs, path)
+			nhighest++
+			if err != nil {
+				report("highest-error", path, err.Error())
+				break
+			}
+			if q == 0 {
+				first = w.String()
+				winners[first] = true
+			} else if w.String() != first {
+				report("order", path, first, w.String())
+				break
+			}
+		}
+		// recorded subsets for TLC
+		for q := 0; q < nsets && n >= 2; q++ {
+			k := 2 + r.Intn(3)
+			if k > n {
+				k = n
+			}
+			idx := r.Perm(n)[:k]
+			if q%4 == 3 && k >= 2 {
+				// neighbours in name order: similar variants, the interesting comparisons
+				st := r.Intn(n - k + 1)
+				for i := range idx {
+					idx[i] = st + i
+				}
+			}
+			vs := make([]string, k)
+			cm := make([][]int, k)
+			same := make([][]int, k)
+			for i := range idx {
+				vs[i] = M[idx[i]].String()
+				cm[i] = make([]int, k)
+				same[i] = make([]int, k)
+				for j := range idx {
+					cm[i][j] = int(C[idx[i]][idx[j]])
+					if idx[i] == idx[j] {
+						same[i][j] = 1
+					}
+				}
+			}
+			perms := permutations(k)
+			win := make([]int, len(perms))
+			p1 := make([][]int, len(perms))
+			wstr := map[string]bool{}
+			for pi, pm := range perms {
+				in := make([]patterns.PatternVariant, k)
+				p1[pi] = make([]int, k)
+				for i, x := range pm {
+					in[i] = M[idx[x]]
+					p1[pi][i] = x + 1
+				}
+				w, err := patterns.HighestPrecedencePattern(in, path)
+				nperm++
+				if err == nil {
+					for i := range idx {
+						if vs[i] == w.String() {
+							win[pi] = i + 1
+						}
+					}
+					wstr[w.String()] = true
+				}
+			}
+			if len(wstr) != 1 {
+				report("order", path, vs...)
+			}
+			caseNo++
+			nsetsTotal++
+			em.emit(map[string]interface{}{"kind": "set", "case": caseNo, "path": path, "k": k, "vs": vs, "cmp": cm, "same": same,
+				"perms": p1, "winners": win})
+		}
+	}
+	em.emit(map[string]interface{}{"kind": "stats", "pool": len(names), "paths": len(paths), "compares": ncmp, "triples": ntriples,
+		"sets": nsetsTotal, "permutations": nperm, "highest_calls": nhighest, "max_matching": maxM, "distinct_winners": len(winners),
+		"law_violations": bad})
+}
+
 var _ = fmt.Sprintf
-var _ = sort.Ints
